@@ -591,14 +591,67 @@ def task_fock(ctx):
     ctx.assume_note("shape-bounded: batch [O-H, H-H], arbitrary symmetric densities and integral blocks; Hcore given as its upper triangle (precondition from hcore.py)")
 
 
+def replay_hcore_far_pair(model):
+    """real hcore for AM1 H2 ... H2 with the two molecules 24 Angstrom apart (beyond the 40 bohr overlap cutoff, inside the pair
+    cutoff): the diagonal block of EVERY atom must contain the attraction to the cores of the far atoms (compared with the sum of
+    U and the e1b/e2a blocks of the real two-centre routine)."""
+    import torch
+    from seqm.seqm_functions.constants import Constants
+    from seqm.Molecule import Molecule
+    from seqm.ElectronicStructure import Electronic_Structure
+    import seqm.seqm_functions.hcore as HC
+
+    torch.set_default_dtype(torch.float64)
+    params = {"method": "AM1", "scf_eps": 1e-8, "scf_converger": [1], "sp2": [False, 1e-5], "elements": [0, 1], "learned": [], "pair_outer_cutoff": 1e10, "eig": True}
+    xyz = torch.tensor([[[0.0, 0.0, 0.0], [0.74, 0.0, 0.0], [3.0, 24.0, 1.0], [3.0, 24.74, 1.0]]])
+    mol = Molecule(Constants(), params, xyz, torch.tensor([[1, 1, 1, 1]]))
+    import io, contextlib
+    with contextlib.redirect_stdout(io.StringIO()):
+        Electronic_Structure(params)(mol)  # fills parser fields and parameters
+    got = {}
+    real_tetci = HC.TETCI
+
+    def rec(*a, **k):
+        out = real_tetci(*a, **k)
+        got["e1b"], got["e2a"] = out[1].detach().clone(), out[2].detach().clone()
+        return out
+
+    HC.TETCI = rec
+    try:
+        M = HC.hcore(mol)[0]
+    finally:
+        HC.TETCI = real_tetci
+    want = torch.zeros_like(M)
+    want[mol.maskd, 0, 0] = mol.parameters["U_ss"]
+    for o in range(1, 4):
+        want[mol.maskd, o, o] = mol.parameters["U_pp"]
+    want.index_add_(0, mol.maskd[mol.idxi], got["e1b"])
+    want.index_add_(0, mol.maskd[mol.idxj], got["e2a"])
+    dev = float((M[mol.maskd] - want[mol.maskd]).abs().max())
+    return {"reproduced": dev > 1e-10, "max_abs_deviation_of_a_diagonal_block_eV": dev, "separation_A": 24.0, "pairs": int(len(mol.idxi)), "pairs_beyond_the_overlap_cutoff": int((mol.rij > 40.0).sum())}
+
+
 def task_hcore_assembly(ctx):
-    """O4: hcore assembles  M_AA = diag(U_ss, U_pp x3) + sum_B V_B  (electron-core attraction blocks of every pair the atom
-    belongs to) and  M_AB = 1/2 (beta_mu + beta_nu) S_mu,nu  for every listed pair; nothing else is written."""
+    """O4: hcore assembles  M_AA = diag(U_ss, U_pp x3) + sum_B V_B  (electron-core attraction blocks of EVERY pair the atom
+    belongs to, however far apart) and  M_AB = 1/2 (beta_mu + beta_nu) S_mu,nu  for every listed pair within the overlap cutoff
+    (0 beyond it); nothing else is written.  Every near/far pattern of the pair distances is a path."""
     from contracts.es_common import ghost_es_molecule
 
     HC = "seqm.seqm_functions.hcore"
     fn = ctx.under_contract(HC + ":hcore", stubs=["diatom_overlap_matrix_PM6_SP", "TETCI (two_elec_two_center_int)"])
+    import seqm.seqm_functions.hcore as HCm
+
+    cutoff = E.frac_of_float(float(HCm.overlap_cutoff))
     rec = {}
+    rep = []
+
+    def rp(m_):
+        if not rep:
+            try:
+                rep.append(replay_hcore_far_pair({}))
+            except Exception as exc:  # noqa
+                rep.append({"reproduced": False, "error": repr(exc)[:300]})
+        return rep[0]
 
     def ov_stub(ni, nj, xij, rij, za, zb, qn):
         rec["S"] = st.symbolic((len(ni), 4, 4), "S")
@@ -607,6 +660,7 @@ def task_hcore_assembly(ctx):
     def tetci_stub(const, idxi, idxj, ni, nj, xij, rij, Z, *a):
         n = len(ni)
         rec["e1b"], rec["e2a"], rec["w"] = st.symbolic((n, 4, 4), "e1b"), st.symbolic((n, 4, 4), "e2a"), st.symbolic((n, 10, 10), "w")
+        rec["tetci_pairs"] = n
         return rec["w"], rec["e1b"], rec["e2a"], st.zeros(n), st.zeros(n), None, None
 
     def thunk():
@@ -616,38 +670,65 @@ def task_hcore_assembly(ctx):
         mol.parameters["beta"] = st.symbolic((nat, 2), "beta")
         for k in ("F0SD", "G2SD", "rho_core"):
             mol.parameters[k] = st.zeros(nat)
-        assume(E.and_(*[(mol.rij.a[k] <= 40).n for k in range(len(mol.pairs))]))
         M, w, *_ = fn(mol)
-        return mol, M
+        return mol, M, dict(rec)
 
     ex = ctx.explore(thunk, stubs={HC + ":diatom_overlap_matrix_PM6_SP": ov_stub, HC + ":TETCI": tetci_stub}, name="hcore", max_paths=64)
     ok = [p for p in ex.paths if p.raised is None]
-    if len(ok) != 1:
-        ctx.error("paths", "%r %s" % ([p.raised for p in ex.paths], ex.paths[0].notes.get("traceback", "")[-700:] if ex.paths else ""))
+    for p in ex.paths:
+        if p.raised is not None:
+            if isinstance(p.raised, Unmodelled):
+                raise p.raised
+            ctx.fail("raises@p%d" % p.path_id, repr(p.raised) + p.notes.get("traceback", "")[-700:])
+    if len(ok) < 2:
+        ctx.error("paths", "expected near and far paths, got %d" % len(ok))
         return
-    mol, M = ok[0].value
-    nblk = mol.nmol * mol.molsize * mol.molsize
-    want = {b: [[S(0.0) for _ in range(4)] for _ in range(4)] for b in range(nblk)}
-    par = mol.parameters
-    for a in range(len(mol.flat)):
-        b = int(mol.maskd.a[a])
-        want[b][0][0] = want[b][0][0] + par["U_ss"].a[a]
-        for o in range(1, 4):
-            want[b][o][o] = want[b][o][o] + par["U_pp"].a[a]
-    for k, (a, c) in enumerate(mol.pairs):
-        ba, bc = int(mol.maskd.a[a]), int(mol.maskd.a[c])
-        for i in range(4):
-            for j in range(4):
-                want[ba][i][j] = want[ba][i][j] + rec["e1b"].a[k, i, j]
-                want[bc][i][j] = want[bc][i][j] + rec["e2a"].a[k, i, j]
-                bi = par["beta"].a[a, 0 if i == 0 else 1]
-                bj = par["beta"].a[c, 0 if j == 0 else 1]
-                want[int(mol.mask.a[k])][i][j] = Fraction(1, 2) * (bi + bj) * rec["S"].a[k, i, j]
-    for b in range(nblk):
-        for i in range(4):
-            for j in range(4):
-                ctx.prove_eq("M[block%d,%d,%d]" % (b, i, j), M.a[b, i, j], want[b][i][j], pc=ok[0].pc, shape="batch [OHH, HH+pad]")
-    ctx.assume_note("overlap and two-centre integral kernels replaced by symbolic stubs; shape-bounded batch [OHH, HH+pad]; blocks of padding slots and of the lower triangle stay zero")
+    all_near_seen = False
+    for p in ok:
+        mol, M, r_ = p.value
+        npairs = len(mol.pairs)
+        # which pairs this path treats as near (decided by the path condition)
+        near = []
+        for k in range(npairs):
+            c_near = (mol.rij.a[k] <= S(cutoff))
+            st_near = ctx.decide_under(p.pc, c_near) if hasattr(ctx, "decide_under") else None
+            if st_near is None:
+                from pyvc import smt as _smt
+
+                s1, _, _ = _smt.check_sat([E._tobool(E.node_of(c)) for c in p.pc] + [E.not_(c_near.n)], 10.0, want_model=False)
+                st_near = (s1 == "unsat")
+            near.append(bool(st_near))
+        all_near_seen = all_near_seen or all(near)
+        tagp = "near=%s" % "".join("N" if x else "F" for x in near)
+        ctx.prove("%s.two-centre-routine-is-called-for-every-pair" % tagp, E.const(r_.get("tetci_pairs") == npairs), pc=p.pc, replay=rp)
+        nblk = mol.nmol * mol.molsize * mol.molsize
+        want = {b: [[S(0.0) for _ in range(4)] for _ in range(4)] for b in range(nblk)}
+        par = mol.parameters
+        for a in range(len(mol.flat)):
+            b = int(mol.maskd.a[a])
+            want[b][0][0] = want[b][0][0] + par["U_ss"].a[a]
+            for o in range(1, 4):
+                want[b][o][o] = want[b][o][o] + par["U_pp"].a[a]
+        kn = 0
+        for k, (a, c) in enumerate(mol.pairs):
+            ba, bc = int(mol.maskd.a[a]), int(mol.maskd.a[c])
+            for i in range(4):
+                for j in range(4):
+                    want[ba][i][j] = want[ba][i][j] + r_["e1b"].a[k, i, j]
+                    want[bc][i][j] = want[bc][i][j] + r_["e2a"].a[k, i, j]
+                    if near[k]:
+                        bi = par["beta"].a[a, 0 if i == 0 else 1]
+                        bj = par["beta"].a[c, 0 if j == 0 else 1]
+                        want[int(mol.mask.a[k])][i][j] = Fraction(1, 2) * (bi + bj) * r_["S"].a[kn, i, j]
+            if near[k]:
+                kn += 1
+        for b in range(nblk):
+            for i in range(4):
+                for j in range(4):
+                    ctx.prove_eq("%s.M[block%d,%d,%d]" % (tagp, b, i, j), M.a[b, i, j], want[b][i][j], pc=p.pc, shape="batch [OHH, HH+pad]", replay=rp)
+    if not all_near_seen:
+        ctx.error("paths.all-near", "the path with every pair inside the overlap cutoff was not explored")
+    ctx.assume_note("overlap and two-centre integral kernels replaced by symbolic stubs; shape-bounded batch [OHH, HH+pad]; blocks of padding slots and of the lower triangle stay zero; pair distances symbolic (every near/far pattern w.r.t. the overlap cutoff)")
 
 
 def task_fock_uhf(ctx):
